@@ -80,7 +80,19 @@ def value_job(N):
     j.bounded_note = 'value obligations only, exhaustive over all NUL-terminated byte strings of at most %d bytes' % N
     return j
 
+def shape_job(a, b, sep='.'):
+    # longer literals of one fixed shape: a digits, the separator, b digits (every digit value symbolic)
+    N = a + b + 1
+    conds = ' && '.join(["s[%d] == '%s'" % (a, sep)] + ["s[%d] >= '0' && s[%d] <= '9'" % (k, k) for k in range(N) if k != a])
+    h = H_CONV.replace("char s[OSMT_N + 1]; mk_input(s);", "char s[OSMT_N + 1]; mk_input(s); __CPROVER_assume(%s);" % conds, 1)
+    j = job('stringToRational.shape_%d%s%d' % (a, 'dot' if sep == '.' else 'slash', b), 'opensmt::stringToRational', h, N, weight=30, checks=[])
+    j.defines = j.defines + ('OSMT_STATIC_MALLOC',)
+    j.bounded_note = 'value obligations only, exhaustive over all literals of the shape %s%s%s (%d digits, separator, %d digits)' % ('d' * a, sep, 'd' * b, a, b)
+    return j
+
 def jobs(tier, N=None):
+    if os.environ.get('C16_SHAPE'):
+        a, b = os.environ['C16_SHAPE'].split(','); return [shape_job(int(a), int(b))]
     N = N or (4 if tier == 'quick' else 5)
     return [job('isIntString', 'opensmt::isIntString', H_INT, N + 1), job('isRealString', 'opensmt::isRealString', H_REAL, N + 1),
             job('stringToRational', 'opensmt::stringToRational', H_CONV, N, weight=20),
